@@ -314,13 +314,14 @@ func init() {
 		Doc:  "paired in/out adjacency updates, copy freshness, reverse view, purity of read-only methods (package graph)",
 		Run:  runMirror,
 		Floor: map[string]int{
-			"MIRROR-EDGE": 2, "MIRROR-DEL": 2, "MIRROR-REMOVE": 5, "MIRROR-ADD": 4, "COPY": 4, "REVERSE": 3, "PURITY": 8, "MIRROR-KEY": 4,
+			"MIRROR-EDGE": 2, "MIRROR-DEL": 2, "MIRROR-REMOVE": 5, "MIRROR-ADD": 4, "COPY": 4, "REVERSE": 3, "PURITY": 8, "MIRROR-KEY": 6, "MIRROR-VERT": 1,
 		},
 	})
 }
 
 func runMirror(c *Ctx) {
 	p := c.P
+	runGraphHelpers(c)
 	gf, err := c.graphFieldRoles()
 	if err != nil {
 		c.R.Undecided("MIRROR-EDGE", "fields", "graph.Graph", "-", err.Error())
